@@ -4,7 +4,8 @@
 P=$1; PROP=$2; shift 2
 cd /verif && . ./env.sh
 if ! git -C /repo diff --quiet; then echo "REPO DIRTY"; exit 2; fi
-git -C /repo apply --3way "$P" 2>/dev/null || git -C /repo apply "$P" || { echo "PATCH DOES NOT APPLY"; exit 3; }
+[ -f "${P%.diff}.rebased.diff" ] && P="${P%.diff}.rebased.diff"
+git -C /repo apply "$P" 2>/dev/null || git -C /repo apply --3way "$P" 2>/dev/null || { git -C /repo reset -q --hard HEAD; echo "PATCH DOES NOT APPLY"; exit 3; }
 git -C /repo reset -q 2>/dev/null
 VERIF_REPLAY_DIR=/var/tmp/seedtest-replays ./bin/vfcheck $PROP --no-evidence --no-replay-files "$@" 2>&1 | cut -c1-400 | tail -8
 RC=${PIPESTATUS[0]}
